@@ -51,11 +51,26 @@ Section Gen.
     | TyUnion l => (fix go (l : list ty) := match l with [] => [] | x :: r => refs x ++ go r end) l
     end.
 
+  (* In the module of an ARRAY alias the items are resolved one step further: an item that is itself a primitive
+     alias is rendered as that primitive (`Gamma: TypeAlias = List[UUID]` for items: $ref Beta, Beta = uuid string)
+     and not imported.  Object fields and wrappers keep the alias class (`b: Beta | None`, `dict[str, Beta]`). *)
+  Definition is_prim_alias (j : nat) : bool :=
+    match nth_error sp j with
+    | Some s => match s_kind s with KAliasOf TyPrim => true | _ => false end
+    | None => false
+    end.
+  Definition norm_alias (t : ty) : ty :=
+    match t with
+    | TyList (TyRef j) => if is_prim_alias j then TyList TyPrim else t
+    | _ => t
+    end.
+
   Definition kind_refs (k : skind) : list nat :=
     match k with
     | KObj fields => flat_map (fun f => refs (f_ty f)) fields
     | KEnum => []
-    | KAliasOf t | KWrapper t => refs t
+    | KAliasOf t => refs (norm_alias t)
+    | KWrapper t => refs t
     end.
 
   Fixpoint dedup_nat (l : list nat) : list nat :=
@@ -108,7 +123,7 @@ Section Gen.
     | KObj fields =>
         [ClassDef (s_cls s) [AConst] (map (field_item self) (filter (fun f => has_ref (f_ty f)) fields))]
     | KEnum => [ClassDef (s_cls s) [AConst; AConst; AConst] []]
-    | KAliasOf t => [Alias (s_cls s) (rty self t) (Some AConst)]
+    | KAliasOf t => [Alias (s_cls s) (rty self (norm_alias t)) (Some AConst)]
     | KWrapper t =>
         [ClassDef (s_cls s) [AConst]
            (if has_ref t then [CField [95;100;97;116;97] (ASub AConst [AConst; rty self t]) (Some AConst)] else [])]
